@@ -273,8 +273,11 @@ impl Driver {
             Ok(o) => o,
             Err(msg) => {
                 let (pc, ph) = pre.map(|s| (s.connection, s.handshake)).unwrap_or(("-", "-"));
-                log.ev(json!({"ev": "panic", "a": s.a, "p": s.p, "m": s.m.json(), "msg": msg,
-                              "pre_conn": pc, "pre_hs": ph}));
+                // the public sets are still readable after the unwind: log them, the run ends here
+                let mut ev = json!({"ev": "panic", "a": s.a, "p": s.p, "m": s.m.json(), "msg": msg,
+                                    "pre_conn": pc, "pre_hs": ph, "out": []});
+                self.state_json(&mut ev);
+                log.ev(ev);
                 return Outcome::Panicked;
             }
         };
@@ -392,7 +395,14 @@ fn weighted<'a>(rng: &mut Rng, c: &'a [(u64, Step)]) -> &'a Step {
     &c[0].1
 }
 
-fn fill_payload(rng: &mut Rng, d: &mut MsgDesc, versions: &[u64], npeers: u64) {
+/// `big`: now and then a responder hands out a very large address list (more than was asked for)
+fn fill_payload(rng: &mut Rng, d: &mut MsgDesc, versions: &[u64], npeers: u64, big: bool) {
+    if big && d.proto == "peersharing" && d.kind == "SharePeers" && rng.chance(1, 3) {
+        let n = rng.range(60, 160);
+        let base = 100 + rng.below(4) * 150;
+        d.peers = (0..n).map(|i| base + i).collect();
+        return;
+    }
     if d.proto == "handshake" && d.kind == "Accept" {
         d.ver = *rng.pick(versions);
         d.ps = if rng.chance(3, 4) { 1 } else { 0 };
@@ -514,7 +524,7 @@ pub fn random_runs(args: &pv_core::Args) {
                     }
                     if !opts.is_empty() {
                         let mut m = rng.pick(&opts).clone();
-                        fill_payload(&mut rng, &mut m, &versions, npeers);
+                        fill_payload(&mut rng, &mut m, &versions, npeers, mode == "c29" && !snap);
                         c.push((16, Step::msg("recv", *p, m)));
                     }
                 }
